@@ -666,7 +666,7 @@ Lemma other_items_untouched_l c hv Y batch ctx tr ob ctx' r tr' :
   forall j t, nth_error (tokens c) j = Some t -> t <> TX -> t <> TClass -> nth_error ob j = nth_error batch j.
 Proof.
   unfold collate_batch. intros H L.
-  bi H idx t0 Hidx. bi H u0 t0' Hlab. bi H r0 t1 Hr. bi H b1 t2 H1. bi H b2 t3 H2. bi H b3 t4 H3.
+  bi H idx t0 Hidx. bi H uv0 tv0 Hmv. bi H u0 t0' Hlab. bi H r0 t1 Hr. bi H b1 t2 H1. bi H b2 t3 H2. bi H b3 t4 H3.
   inversion H; subst ob ctx' r tr'. clear H.
   apply lift_inv in Hidx. destruct Hidx as [Hidx _].
   apply lift_inv in H1. destruct H1 as [H1 _].
@@ -880,7 +880,7 @@ Lemma ctx_entries_l c hv Y batch ctx tr ob ctx' r tr' :
   ctx_get KLambda ctx' = Some (VLams (ctx_lambda r)).
 Proof.
   unfold collate_batch. intros H.
-  bi H idx t0 Hidx. bi H u0 t0' Hlab. bi H r0 t1 Hr. bi H b1 t2 H1. bi H b2 t3 H2. bi H b3 t4 H3.
+  bi H idx t0 Hidx. bi H uv0 tv0 Hmv. bi H u0 t0' Hlab. bi H r0 t1 Hr. bi H b1 t2 H1. bi H b2 t3 H2. bi H b3 t4 H3.
   inversion H; subst ob ctx' r tr'. clear H.
   split; [|split; [|split]].
   - intro k. rewrite !ctx_get_set_other by discriminate. reflexivity.
@@ -902,6 +902,7 @@ Definition explained (c : cfg) (Y : list (list Q)) (e : err) : Prop :=
   | ECast => x_float c = false
   | EView => x_rank c = 0%nat
   | ENoX => has_item (tokens c) TX = false
+  | EMultiView => has_item (tokens c) TX = true /\ x_views c <> 0%nat
   end.
 
 Definition errs {A} (P : err -> Prop) (m : M A) : Prop := forall tr e, m tr = Err e -> P e.
@@ -1010,6 +1011,11 @@ Proof.
   unfold collate_batch.
   apply errs_bind; [apply errs_lift; exact I|]. intros idx.
   apply errs_bind.
+  { destruct (has_item (tokens c) TX && negb (Nat.eqb (x_views c) 0)) eqn:E; [|apply errs_ret].
+    apply errs_fail. simpl. apply andb_true_iff in E. destruct E as [E1 E2]. apply negb_true_iff in E2.
+    apply Nat.eqb_neq in E2. auto. }
+  intros _.
+  apply errs_bind.
   { destruct (has_item (tokens c) TClass && negb (labels_accepted (lab_ndim c) Y)) eqn:E; [|apply errs_ret].
     apply errs_fail. simpl. apply andb_true_iff in E. destruct E as [E1 E2]. apply negb_true_iff in E2. auto. }
   intros _.
@@ -1026,15 +1032,16 @@ Definition in_domain (c : cfg) (Y : list (list Q)) : Prop :=
   has_item (tokens c) TX = true /\
   (has_item (tokens c) TClass = true -> labels_accepted (lab_ndim c) Y = true) /\
   (shuf c = Flip -> Nat.even (bsz c) = true \/ bsz c = 1%nat) /\
-  x_rank c = 3%nat /\ x_float c = true.
+  x_rank c = 3%nat /\ x_float c = true /\ x_views c = 0%nat.
 Lemma in_domain_not_rejected_l c hv Y batch ctx tr e :
   in_domain c Y -> collate_batch c hv Y batch ctx tr = Err e -> e = EDraw \/ e = EItem.
 Proof.
-  intros (D1 & D2 & D3 & D4 & D5) H. apply errors_explained_l in H. destruct e; simpl in H; auto; exfalso.
+  intros (D1 & D2 & D3 & D4 & D5 & D6) H. apply errors_explained_l in H. destruct e; simpl in H; auto; exfalso.
   - destruct H as (Hf & Hev & Hn). destruct (D3 Hf); congruence.
   - destruct H as (Hc & Hl). rewrite (D2 Hc) in Hl. discriminate.
   - congruence.
   - congruence.
   - congruence.
   - congruence.
+  - destruct H as [_ Hv]. congruence.
 Qed.
